@@ -142,6 +142,8 @@ class iCVIFuzzyART(FuzzyART):
 
         self.W: list[np.ndarray] = []
         self.labels_ = np.zeros((X.shape[0],), dtype=int)
+        self.sample_counter_ = 0
+        self.weight_sample_counter_ = []
 
         self.iCVI = iCVI_CH(X[0])
 
@@ -180,3 +182,4 @@ class iCVIFuzzyART(FuzzyART):
 
             self.labels_[i] = c
             self.post_step_fit(X)
+        return self
